@@ -240,6 +240,39 @@ func checkC17CLI(c c17CLICase, ctx *vCtx) *vFailure {
 			return vFailf("%v panics with stdout = /dev/full: %s", cmd.args, vTrunc(r.Panic, 800))
 		}
 		failed, detail = r.Failed, r.Err
+	case "regular-file-size-limit":
+		if len(r.Stdout) <= 1024 {
+			ctx.Label("report-fits-the-limit")
+			return nil // nothing is refused: not a fault case
+		}
+		// stdout is a regular file that may not grow beyond 1 KiB (RLIMIT_FSIZE): the write is refused with EFBIG
+		outp := vWriteFile("c17-limited-output.txt", "")
+		quoted := make([]string, 0, len(inv.Args))
+		for _, a := range inv.Args {
+			quoted = append(quoted, "'"+strings.ReplaceAll(a, "'", "'\\''")+"'")
+		}
+		p := exec.Command("sh", "-c", "ulimit -f 1; exec '"+vRealBin+"' "+strings.Join(quoted, " ")+" > '"+outp+"'")
+		p.Env = []string{"PATH=/usr/bin:/bin", "TZ=UTC", "HOME=" + vScratchDir()}
+		var se bytes.Buffer
+		p.Stderr = &se
+		done := make(chan error, 1)
+		if err := p.Start(); err != nil {
+			vFault("start: %v", err)
+		}
+		go func() { done <- p.Wait() }()
+		select {
+		case err := <-done:
+			failed = err != nil
+			detail = fmt.Sprintf("%v; stderr: %s", err, vTrunc(se.String(), 300))
+		case <-time.After(60 * time.Second):
+			_ = p.Process.Kill()
+			<-done
+			vFault("real binary timed out writing to a size-limited file")
+		}
+		ctx.Run(1)
+		if st, err := os.Stat(outp); err == nil && st.Size() >= int64(len(r.Stdout)) {
+			vFault("C17: the size limit did not bite (%d bytes written, report has %d)", st.Size(), len(r.Stdout))
+		}
 	default:
 		p := exec.Command(vRealBin, inv.Args...)
 		p.Env = []string{"PATH=/usr/bin:/bin", "TZ=UTC", "HOME=" + vScratchDir()}
@@ -296,6 +329,7 @@ func c17CLISpace() []c17CLICase {
 				out = append(out, c17CLICase{Cmd: ci, Sink: sink, Big: big})
 			}
 		}
+		out = append(out, c17CLICase{Cmd: ci, Sink: "regular-file-size-limit", Big: true})
 	}
 	return out
 }
@@ -407,6 +441,6 @@ func TestVerifC17Writer(t *testing.T) {
 func TestVerifC17CLI(t *testing.T) {
 	space := c17CLISpace()
 	vEnum(t, "C17", "c17.cli",
-		"16 commands x {stdout = /dev/full in process, /dev/full real binary, closed pipe real binary} x {small report, report larger than the 4096-byte buffer}; must end with a non-zero status (death by SIGPIPE counts)",
+		"16 commands x {stdout = /dev/full in process, /dev/full real binary, closed pipe real binary} x {small report, report larger than the 4096-byte buffer}, plus a regular file under a 1 KiB file-size limit (EFBIG); must end with a non-zero status (death by SIGPIPE counts)",
 		fmt.Sprintf("%d combinations", len(space)), len(space), func(i int) c17CLICase { return space[i] }, checkC17CLI)
 }
